@@ -890,7 +890,7 @@ func (a *Act) spawn(ctx *blockCtx, x *ssa.Go) {
 	for i, p := range callee.Params {
 		vars[p.Name()] = a.val(x.Call.Args[i])
 	}
-	env := &Env{g: g, vars: vars, st: ctx.st, old: ctx.st, pkg: spec.Pkg}
+	env := &Env{g: g, vars: vars, st: ctx.st, old: ctx.st, pkg: spec.Pkg, aliasKey: spec.Key}
 	for k, c := range spec.Requires {
 		t := a.trClauseEnv(env, c, "requires of spawned "+key)
 		g.oblige("pre", fmt.Sprintf("%s/go:%s/pre%d%s", a.key, shortName(key), k, labelSuffix(c)), ctx.reach, t, c.Src, g.pos(x.Pos()), a.callProps(c, spec))
